@@ -288,7 +288,7 @@ func bBind(intp *Interpreter) error {
 	if !ok {
 		return intp.e(eTypecheck, "bind: needs a procedure, not %T", obj)
 	}
-	intp.bindProc(obj)
+	intp.bindProc(obj, make(map[*Object]bool))
 	return nil
 }
 
@@ -1389,7 +1389,14 @@ func equal(a, b Object) (bool, error) {
 	return a == b, nil
 }
 
-func (intp *Interpreter) bindProc(proc Procedure) {
+func (intp *Interpreter) bindProc(proc Procedure, seen map[*Object]bool) {
+	if len(proc) > 0 {
+		// visit every procedure only once
+		if seen[&proc[0]] {
+			return
+		}
+		seen[&proc[0]] = true
+	}
 	for i, elem := range proc {
 		switch obj := elem.(type) {
 		case Operator:
@@ -1404,7 +1411,7 @@ func (intp *Interpreter) bindProc(proc Procedure) {
 		case Procedure:
 			// be careful to avoid infinite loops
 			proc[i] = nil
-			intp.bindProc(obj)
+			intp.bindProc(obj, seen)
 			proc[i] = obj
 		}
 	}
